@@ -90,7 +90,7 @@ Proof.
 Qed.
 
 Lemma delim_chr_of_delim_ok d rest : delim_ok (d :: rest) -> is_delimiter_chr d = true.
-Proof. intros [->|[->| ->]]; reflexivity. Qed.
+Proof. intros H. delim_cases H; reflexivity. Qed.
 
 (* ---- #\ characters ---- *)
 Lemma char_hex_loop ds : forall fuel r n rest, (length ds < fuel)%nat -> all_lower_hex ds -> delim_ok rest ->
@@ -422,7 +422,7 @@ Section ByteVec.
       destruct Hstart as (r1 & E1 & Ha1 & Hp1 & Hk1). rewrite (bind_ok _ _ _ _ _ E1).
       replace (d =? 41) with false by (unfold is_digit, in_range in Hdig; lia).
       assert (Hr : delim_ok (octets_text false bs ++ 41 :: rest)).
-      { destruct bs as [|o' bs']; cbn [octets_text app delim_ok]; [right; left|left]; reflexivity. }
+      { destruct bs as [|o' bs']; reflexivity. }
       rewrite !app_length in Hf. cbn [length] in Hf.
       destruct (parse_number_digits f r1 d ds _ ltac:(destruct first; cbn [length] in Hf |- *; lia) Hd Hr
                   ltac:(rewrite Hv; unfold u64_MAX; lia) Ha1) as (r2 & E2 & Ha2 & Hk2).
